@@ -27,9 +27,9 @@ def run_check(tier):
     r = vlib.tlc("MC_XmlFormat", timeout=1500)
     chk.add_tlc("MC_XmlFormat", r)
     jc.save_leg(chk, tier, label="xml-save", arch="xml")
-    XS = "{0, 1, 2, 3, 4, 5, 6, 7}"
+    XS = "{0, 1, 2, 3, 4, 5, 6, 7, 8, 9}"
     jc.load_leg(chk, tier, "typed", {"MaxOps": 0, "Widths": XS}, ["Export"], label="XML rendering loaded into typed targets", arch="xml")
-    jc.load_leg(chk, tier, "fields", {"MaxOps": 1 if quick else 2, "Widths": "{1, 3, 4, 7}" if quick else XS},
+    jc.load_leg(chk, tier, "fields", {"MaxOps": 1 if quick else 2, "Widths": "{1, 3, 4, 7, 8}" if quick else XS},
                 ["SentinelIntact", "UnchangedOnFailure", "Export"], label="XML rendering loaded by a request script", arch="xml")
     return chk.finish()
 
